@@ -39,16 +39,16 @@ type rec struct {
 }
 
 type history struct {
-	Kind    string     `json:"kind"`
-	Cfg     string     `json:"cfg"`
-	Pool    []poolBlob `json:"pool"`
-	Clients int        `json:"clients"`
-	Recs    []rec      `json:"recs"`
-	Final   []rec      `json:"final"` // read-back by one client after all others have finished
-	Race    bool       `json:"race"`  // produced by the -race child
-	Yields  int64      `json:"yields"`
-	Hung    bool       `json:"hung,omitempty"`
-	Hits    []string   `json:"hits,omitempty"`
+	Kind    string      `json:"kind"`
+	Cfg     string      `json:"cfg"`
+	Pool    []poolBlob  `json:"pool"`
+	Clients int         `json:"clients"`
+	Recs    []rec       `json:"recs"`
+	Final   []rec       `json:"final"` // read-back by one client after all others have finished
+	Race    bool        `json:"race"`  // produced by the -race child
+	Yields  int64       `json:"yields"`
+	Hung    bool        `json:"hung,omitempty"`
+	Hits    []string    `json:"hits,omitempty"`
 	Deps    *depsResult `json:"deps,omitempty"` // kind "ixdeps": the verdict of the dependent-blob oracle
 }
 
